@@ -277,18 +277,27 @@ Proof.
     split; [discriminate | intros [y [Hy _]]; discriminate].
 Qed.
 
+Lemma ip_mask_v4 a m : length a = 4%nat -> length m = 4%nat -> ip_mask (v4in6_prefix ++ a) m = map2_band a m.
+Proof.
+  intros La Lm. unfold ip_mask. cbv zeta. rewrite Lm. cbn [Nat.eqb andb]. rewrite Lm. cbn [Nat.eqb andb].
+  change (firstn 12 (v4in6_prefix ++ a)) with v4in6_prefix. rewrite beqb_refl.
+  change (skipn 12 (v4in6_prefix ++ a)) with a. rewrite app_length, La. cbn [length v4in6_prefix plus Nat.eqb andb].
+  rewrite La. reflexivity.
+Qed.
+
+Lemma ip_mask_v6 a m : length a = 16%nat -> length m = 16%nat -> ip_mask a m = map2_band a m.
+Proof.
+  intros La Lm. unfold ip_mask. cbv zeta. rewrite Lm, La. cbn [Nat.eqb andb]. rewrite Lm. cbn [Nat.eqb andb].
+  rewrite La. reflexivity.
+Qed.
+
 (* IPv4 network, written a.b.c.d/n *)
 Theorem cidr_v4 a n x : length a = 4%nat -> n <= 32 ->
   ipnet_contains (ip_mask (v4in6_prefix ++ a) (cidr_mask n 32)) (cidr_mask n 32) x = true <-> in_net4 a n x.
 Proof.
   intros La Hn. unfold cidr_mask. change (N.to_nat (32 / 8)) with 4%nat.
   set (m4 := cidr_mask_bytes 4 n). assert (Lm : length m4 = 4%nat) by apply cmb_length.
-  assert (Hmask : ip_mask (v4in6_prefix ++ a) m4 = map2_band a m4).
-  { unfold ip_mask. rewrite Lm. cbn [Nat.eqb andb]. rewrite Lm, app_length, La. cbn [length v4in6_prefix plus Nat.eqb andb].
-    rewrite firstn_app. cbn [length v4in6_prefix Nat.sub firstn]. rewrite app_nil_r.
-    change (firstn 12 v4in6_prefix) with v4in6_prefix. rewrite beqb_refl.
-    rewrite skipn_app. cbn [length v4in6_prefix Nat.sub skipn app]. now rewrite La, Lm. }
-  rewrite Hmask. unfold ipnet_contains, net_num_mask.
+  rewrite (ip_mask_v4 a m4 La Lm). unfold ipnet_contains, net_num_mask.
   assert (Ln : length (map2_band a m4) = 4%nat) by (rewrite map2_band_length; congruence).
   rewrite (to4_len4 _ Ln), Lm, Ln. cbn [Nat.eqb]. now apply contains4.
 Qed.
@@ -302,9 +311,7 @@ Theorem cidr_v6 a n x : length a = 16%nat -> n <= 128 ->
 Proof.
   intros La Hn. unfold cidr_mask. change (N.to_nat (128 / 8)) with 16%nat.
   set (m := cidr_mask_bytes 16 n). assert (Lm : length m = 16%nat) by apply cmb_length.
-  assert (Hmask : ip_mask a m = map2_band a m).
-  { unfold ip_mask. rewrite Lm, La. cbn [Nat.eqb andb]. now rewrite Lm, La. }
-  rewrite Hmask. set (nip := map2_band a m).
+  rewrite (ip_mask_v6 a m La Lm). set (nip := map2_band a m).
   assert (Ln : length nip = 16%nat) by (unfold nip; rewrite map2_band_length; congruence).
   destruct ((96 <=? n) && is_mapped a) eqn:C.
   - (* a v4-mapped text with a prefix that covers the mapping *)
